@@ -110,12 +110,12 @@ type run struct {
 	syncObjs     map[*value]*syncMeta
 	chanLocal    map[*chanObj]bool
 
-	sideTables map[interface{}]interface{}
-	fnSeen     map[*ssa.Function]bool
-	schedLog   []int
-	switches   []switchEv
-	hooks      map[string]value
-	maxPreempt int
+	sideTables   map[interface{}]interface{}
+	fnSeen       map[*ssa.Function]bool
+	schedLog     []int
+	switches     []switchEv
+	hooks        map[string]value
+	maxPreempt   int
 	mapRangeMode int
 }
 
@@ -371,6 +371,7 @@ type exploreStats struct {
 	paths        int64
 	pathsOK      int64
 	assumeFalse  int64
+	unfair       int64 // schedules dropped because a Gosched spin was never relieved although another thread could run
 	branchPoints int64
 	splitPoints  int64
 	instrs       int64
@@ -394,35 +395,35 @@ type explorer struct {
 	cond     *sync.Cond
 	cache    sync.Map
 
-	stats      exploreStats
-	results    []*pathResult // violations & inconclusives
-	okSamples  []*pathResult
-	reachedEnd int64
-	fnSeen     map[string]bool
-	stop       bool
-	xsolvers   []*Solver
-	xmu        sync.Mutex
-	xrate      int
-	xcount     int64
+	stats        exploreStats
+	results      []*pathResult // violations & inconclusives
+	okSamples    []*pathResult
+	reachedEnd   int64
+	fnSeen       map[string]bool
+	stop         bool
+	xsolvers     []*Solver
+	xmu          sync.Mutex
+	xrate        int
+	xcount       int64
 	modelsWanted int
 	msgCount     map[string]int
 }
 
 type pathResult struct {
-	Harness   string            `json:"harness"`
-	Outcome   string            `json:"outcome"`
-	Msg       string            `json:"msg,omitempty"`
-	Viol      *violation        `json:"violation,omitempty"`
-	Decisions []int64           `json:"decisions"`
-	Kinds     []string          `json:"decision_kinds,omitempty"`
-	Inputs    map[string]int64  `json:"inputs,omitempty"`
+	Harness   string             `json:"harness"`
+	Outcome   string             `json:"outcome"`
+	Msg       string             `json:"msg,omitempty"`
+	Viol      *violation         `json:"violation,omitempty"`
+	Decisions []int64            `json:"decisions"`
+	Kinds     []string           `json:"decision_kinds,omitempty"`
+	Inputs    map[string]int64   `json:"inputs,omitempty"`
 	UF        map[string][]ufRow `json:"uf,omitempty"`
-	Trace     []traceEvent      `json:"trace,omitempty"`
-	Sched     []int             `json:"sched,omitempty"`
-	Switches  []switchEv        `json:"switches,omitempty"`
-	Threads   []string          `json:"threads,omitempty"`
-	Reached   []string          `json:"reached,omitempty"`
-	Steps     int64             `json:"steps"`
+	Trace     []traceEvent       `json:"trace,omitempty"`
+	Sched     []int              `json:"sched,omitempty"`
+	Switches  []switchEv         `json:"switches,omitempty"`
+	Threads   []string           `json:"threads,omitempty"`
+	Reached   []string           `json:"reached,omitempty"`
+	Steps     int64              `json:"steps"`
 	key       string
 	score     int
 }
